@@ -31,8 +31,36 @@ def expected_count(recs, blocked, n, file_len):
     return k
 
 
+def ipm_eval(case):
+    """IPM files: every cut of a file written by IpmWriter, read with IpmReader"""
+    from cardutil import mciipm, iso8583
+    from harness import isoutil as iu
+    from harness.props import c06
+    msgs = [iu.dict_unwire(w) for w in case['msgs']]
+    blocked = bool(case['b'])
+    data = c06.write_file(msgs, case['codec'], None, blocked)
+    recs = [iso8583.dumps(dict(m), encoding=case['codec']) for m in msgs]
+    full = [iso8583.loads(r, encoding=case['codec']) for r in recs]
+    parts, why = [], None
+    for n in range(0, len(data) + 1, case.get('step', 1)):
+        back, exc = read_all(mciipm.IpmReader(io.BytesIO(data[:n]), encoding=case['codec'], blocked=blocked))
+        parts.append(f'{len(back)}:{render_end(exc)}')
+        if why is None:
+            k = expected_count(recs, blocked, n, len(data))
+            if back != full[:k]:
+                why = f'cut at {n}: delivered {len(back)} messages, exactly {k} records are wholly contained (or one is altered)'
+            elif exc is not None and not isinstance(exc, mciipm.MciIpmDataError):
+                why = f'cut at {n}: iteration ended with {type(exc).__name__}'
+            elif isinstance(exc, mciipm.MciIpmDataError) and exc.record_number != k + 1:
+                why = f'cut at {n}: error reports record {exc.record_number}, the incomplete record is {k + 1}'
+    return {'obs': 'ok ' + ';'.join(parts), 'violation': why, 'nontrivial': True, 'weight': len(parts),
+            'tags': [f"fmt:ipm-{'1014' if blocked else 'vbs'}"]}
+
+
 def impl_eval(case):
     from cardutil import mciipm
+    if 'msgs' in case:
+        return ipm_eval(case)
     recs = common.pc_records(case['lens'])
     blocked = bool(case['b'])
     data = mciipm.vbs_list_to_bytes(recs, blocked=blocked)
@@ -55,6 +83,11 @@ def impl_eval(case):
 
 
 def model_line(case):
+    if 'msgs' in case:
+        from harness import isoutil as iu
+        from harness.props import c06
+        data = c06.write_file([iu.dict_unwire(w) for w in case['msgs']], case['codec'], None, bool(case['b']))
+        return (f"ipm.cuts\tpkg\t{case['codec']}\t{case['b']}\t{c03.max_len()}\thex:{data.hex()}\t{case.get('step', 1)}")
     return (f"vbs.cuts\t{'1' if case['b'] else '0'}\t{c03.max_len()}\t" + ','.join(map(str, case['lens']))
             + f"\t{case.get('step', 1)}")
 
@@ -76,5 +109,16 @@ def explore(run, tier):
         for lens in ([6000, 6000], [3000, 17, 4000, 1]):
             for b in (0, 1):
                 cases.append({'b': b, 'lens': lens})
+    from harness import isoutil as iu
+    pkg = iu.pkg_config()
+    for i in range(6 if tier == 'quick' else 60):
+        codec = ['latin_1', 'cp500'][i % 2]
+        msgs = []
+        for _ in range(rng.choice([1, 2, 4])):
+            m, _ = iu.gen_message(rng, pkg, codec)
+            while len(iu.ref_encode(m, pkg, codec, False)) > 700:
+                m, _ = iu.gen_message(rng, pkg, codec)
+            msgs.append(iu.dict_wire(m))
+        cases.append({'b': i % 2, 'codec': codec, 'msgs': msgs})
     run.exhaustive.append('every cut offset 0..len(file) of each generated file')
     run.correspond(__name__, cases, use_model=run.use_model, chunk=2)
